@@ -17,7 +17,7 @@ THEOREMS = ['C11.write_exact', 'C11.write_exact_drained', 'C11.queue_conserved',
             'C11.eagain_limit', 'C11.drains', 'C11.read_is_function_of_stream', 'C11.read_chunk_independent',
             'C11.read_delivers_lines', 'C11.read_chunks_from_any_state', 'C11.framing_exact',
             'C11.reconnect_drops_rest_of_chunk', 'C11.ping_timeout_reconnect_clean', 'C11.decode_encode', 'C11.line_roundtrip', 'C11.never_crashes', 'C11.flushed_when_removed_partial',
-            'C11.zombie_short_write_loses_tail']
+            'C11.zombie_short_write_loses_tail', 'C11.inv_multiLoop', 'C11.select_eq']
 TRUSTED = ['Lean 4.33.0 kernel; axioms ⊆ {propext, Classical.choice, Quot.sound}',
            'harness/c11.py: FakeSocket (send accepts a scripted prefix / raises a scripted error; recv returns scripted chunks), StubIrc (FIFO + PING→PONG), generators, canonical state dump',
            'LimnoriaModel.C05.Model (IrcMsg parse/format) as tied to src/ircmsgs.py by check C05',
@@ -380,6 +380,100 @@ def gen_mixed_case(rig, r):
     ops += [('loop',)] * 3
     return ops
 
+# ---------------------------------------------------------------- several drivers sharing SocketDriver._select
+class MultiRig(object):
+    """n real SocketDrivers (one stub Irc and one fake socket each) registered with the real drivers.run()"""
+    def __init__(self, rig, n):
+        self.rig = rig
+        S = rig.S; drivers = rig.drivers
+        S.SocketDriver._instances[:] = []
+        drivers._drivers.clear(); drivers._newDrivers[:] = []; drivers._deadDrivers.clear()
+        rig.conf.supybot.drivers.poll._callbacks = []
+        rig.socks = []
+        self.ds = []; self.stubs = []; self.sts = []
+        for i in range(n):
+            net = 'test' if i == 0 else 'vtnet%d' % i
+            try:
+                rig.conf.supybot.networks.get(net)
+            except Exception:
+                rig.conf.registerNetwork(net)
+                getattr(rig.conf.supybot.networks, net).ssl.setValue(False)
+            getattr(rig.conf.supybot.networks, net).servers.set('localhost:%d' % (6667 + i))
+            stub = StubIrc(rig.ircmsgs, None); stub.network = net
+            stub.__class__ = type('StubIrc%d' % i, (StubIrc,), {'__str__': lambda self, i=i: 'StubIrc%d' % i, '__repr__': lambda self, i=i: 'StubIrc%d' % i})
+            d = S.SocketDriver(stub); stub.driver = d
+            holder = type('H', (), {})(); holder.sock = d.conn
+            stub.rig = holder                       # takeMsg records on the driver's current socket
+            self.ds.append(d); self.stubs.append(stub)
+            st = type('St', (), {})(); st.name = d.name(); st.wpos = 0; st.fpos = 0; st.socks = [d.conn]; st.crash = None
+            self.sts.append(st)
+            drivers.run()                     # register one at a time: drivers.run() pops _newDrivers from the end
+    def sync(self):
+        for d, st, stub in zip(self.ds, self.sts, self.stubs):
+            if d.conn is not st.socks[-1]:
+                st.socks.append(d.conn)
+            stub.rig.sock = d.conn
+    def dump(self, i):
+        d = self.ds[i]; st = self.sts[i]; stub = self.stubs[i]
+        fed = stub.fed[st.fpos:]; st.fpos = len(stub.fed)
+        allsent = b''.join(x.sent for x in st.socks)
+        w = allsent[st.wpos:]; st.wpos = len(allsent)
+        return 'c%d z%d x%d k%d r%d e%d ep%d ob=%s ib=%s w=%s q=%d f=%s' % (
+            d.connected, d.zombie, st.name in self.rig.drivers._deadDrivers, d.conn._closed, d.nextReconnectTime is not None, d.eagains,
+            len(st.socks) - 1, d.outbuffer.hex(), d.inbuffer.hex() if isinstance(d.inbuffer, bytes) else d.inbuffer.encode().hex(), w.hex(), len(stub.q),
+            ';'.join(enc_msg(m) for m in fed) if fed else '-')
+
+def multi_cases(rig, r, n_cases):
+    cases = []; lines = []; spans = []
+    for _ in range(n_cases):
+        n = r.choice([2, 2, 3])
+        mr = MultiRig(rig, n)
+        ops = []; outs = []
+        for _ in range(r.randint(4, 18)):
+            i = r.randrange(n)
+            k = r.randint(0, 9)
+            if k < 3: op = ('m', i, ('q', gen_out_msg(rig, r)))
+            elif k < 5: op = ('m', i, ('ss', r.choice([('s', r.randint(0, 9)), ('e', 11), ('s', 0), ('s', 10 ** 6)])))
+            elif k < 8:
+                # (no line that makes the stub reconnect and no fatal socket error here: leaving _instances inside _select
+                #  mutates the list being iterated, which makes CPython skip the next driver for that pass — a latency quirk,
+                #  not modelled; such histories are covered by the single-driver streams)
+                s_ = gen_stream(r)
+                while b'ERROR' in s_.upper():
+                    s_ = gen_stream(r)
+                chunks = partition(r, s_, r.choice(['random', 'one', 'targeted']))[:4]
+                for c in chunks[:-1]:
+                    ops.append(('m', i, ('sr', ('d', c))))
+                op = ('m', i, ('sr', ('d', chunks[-1]))) if chunks else ('mloop',)
+            else: op = ('mloop',)
+            ops.append(op)
+        ops += [('mloop',)] * 3
+        all_ok = True; msg = ''
+        for op in ops:
+            mr.sync()
+            if op[0] == 'mloop':
+                rig.drivers.run()
+            else:
+                _, i, o = op
+                stub = mr.stubs[i]; fs = mr.ds[i].conn
+                if o[0] == 'q': stub.queueMsg(RawMsg(o[1]))
+                elif o[0] == 'ss': fs.script.append(o[1])
+                elif o[0] == 'sr': fs.recvs.append(o[1])
+            mr.sync()
+            outs.append(' || '.join(mr.dump(i) for i in range(n)))
+        # the property per connection: what each socket got is a prefix of the encoding of what was taken for it
+        for st in mr.sts:
+            for sk in st.socks:
+                if not encoded([str(m) for m in sk.taken]).startswith(sk.sent):
+                    all_ok = False; msg = 'with %d drivers sharing _select, a socket received %r… not a prefix of the encoding of its messages' % (n, sk.sent[:60])
+        cases.append(Case({'multi': n, 'ops': [[o[0]] if o[0] == 'mloop' else ['m', o[1], op_json(o[2])] for o in ops]}, impl='\n'.join(outs),
+                          oracle_ok=all_ok, oracle_msg=msg, kind='multi-driver', tags=('drivers-%d' % n,)))
+        lines.append('mreset\t%d' % n)
+        spans.append((len(lines), len(ops)))
+        for o in ops:
+            lines.append('mloop' if o[0] == 'mloop' else 'm\t%d\t%s' % (o[1], op_line(o[2])))
+    return cases, lines, spans
+
 # ---------------------------------------------------------------- oracle (implementation only)
 def encoded(strs):
     return ''.join(strs).encode('utf-8')
@@ -524,6 +618,32 @@ def time_ok(v):
     except ValueError:
         return False
 
+def _needed_times(outs):
+    need = set()
+    for o in outs:
+        for part in o.split(' || '):
+            f = part.split(' f=')
+            if len(f) > 1 and f[1].split(' ')[0] != '-':
+                for m in f[1].split(' ')[0].split(';'):
+                    tv = m.split('/')[4]
+                    if tv != '~': need.add(wire.dec(tv))
+    return need
+
+def model_outputs(lines):
+    """run the model; instantiate its strptime parameter with the real function (fixed point over the values it relied on)"""
+    def run(pre):
+        return wire.run_driver(PROPERTY, pre + lines)[len(pre):]
+    outs = run(['timeall'])
+    need = _needed_times(outs)
+    if any(not time_ok(v) for v in need):
+        for _ in range(5):
+            good = sorted(v for v in need if time_ok(v))
+            outs = run(['timeset\t' + wire.enc_list(good)])
+            need2 = need | _needed_times(outs)
+            if need2 == need: break
+            need = need2
+    return outs
+
 def fill_model(cases):
     lines = []; spans = []
     for c in cases:
@@ -531,32 +651,7 @@ def fill_model(cases):
         lines.append('reset')
         spans.append((len(lines), len(ops)))
         lines += [op_line(o) for o in ops]
-    def run(pre):
-        return wire.run_driver(PROPERTY, pre + lines)[len(pre):]
-    outs = run(['timeall'])
-    # instantiate the strptime parameter: which time-tag values did the model rely on?
-    need = set()
-    for o in outs:
-        f = o.split(' f=')
-        if len(f) > 1 and f[1].split(' ')[0] != '-':
-            for m in f[1].split(' ')[0].split(';'):
-                tv = m.split('/')[4]
-                if tv != '~': need.add(wire.dec(tv))
-    bad = [v for v in need if not time_ok(v)]
-    if bad:
-        # a value first seen as accepted may hide others behind it: iterate to a fixed point
-        for _ in range(5):
-            good = sorted(v for v in need if time_ok(v))
-            outs = run(['timeset\t' + wire.enc_list(good)])
-            need2 = set(need)
-            for o in outs:
-                f = o.split(' f=')
-                if len(f) > 1 and f[1].split(' ')[0] != '-':
-                    for m in f[1].split(' ')[0].split(';'):
-                        tv = m.split('/')[4]
-                        if tv != '~': need2.add(wire.dec(tv))
-            if need2 == need: break
-            need = need2
+    outs = model_outputs(lines)
     for c, (a, n) in zip(cases, spans):
         c.model = '\n'.join(outs[a:a + n])
     return cases
@@ -619,6 +714,12 @@ def run(ctx):
         for c, o in zip(mc, wire.run_driver(PROPERTY, mlines)):
             c.model = o
     cases += mc
+    mcs, mls, msp = multi_cases(rig, rng.make('c11-multi'), 250 * scale)
+    if build.driver_ok:
+        mouts = model_outputs(mls)
+        for c, (a, n) in zip(mcs, msp):
+            c.model = '\n'.join(mouts[a:a + n])
+    cases += mcs
     wc = make_case(rig, rng.make('w'), [op_unjson(o) for o in ZOMBIE_WITNESS['ops']], 'finding-witness')
     st_stub = (wc.oracle_ok is False and wc.finding == 'C11-zombie-flush')
     try:
